@@ -115,6 +115,29 @@ Lemma dimension_gate_derr :
   In "topDerr" (strongly_written F.lossy_VP8Encoder_allocateBuffers_writes).
 Proof. repeat split; apply mem_In; vm_compute; reflexivity. Qed.
 
+(** ConstZero fields: [yuvP] is the only one; the package accesses it only to allocate
+    it and to hand it to PickBestI4Mode; no analysed function of the acquire path, the
+    import, the encode entry point or the release writes it. *)
+Definition all_VP8Encoder_write_lists_but_alloc : list (list (string * string)) :=
+  [F.lossy_VP8Encoder_resetForReuse_writes; F.lossy_VP8Encoder_NewEncoder_writes;
+   F.lossy_VP8Encoder_NewEncoderFromYUV_writes; F.lossy_VP8Encoder_ReleaseEncoder_writes;
+   F.lossy_VP8Encoder_initSegments_writes; F.lossy_VP8Encoder_initEncoderParams_writes;
+   F.lossy_VP8Encoder_importImage_writes; F.lossy_VP8Encoder_importYCbCr_writes;
+   F.lossy_VP8Encoder_EncodeFrame_writes].
+
+Lemma constzero_fields_never_written :
+  fields_of_class ConstZero class_VP8Encoder = ["yuvP"] /\
+  F.lossy_VP8Encoder_yuvP_accesses = modelled_yuvP_accesses /\
+  forallb (fun w => forallb (fun f => negb (mem f (written w))) (fields_of_class ConstZero class_VP8Encoder))
+          all_VP8Encoder_write_lists_but_alloc = true /\
+  subset (fields_of_class ConstZero class_VP8Encoder) (strongly_written F.lossy_VP8Encoder_allocateBuffers_writes) = true /\
+  fields_of_class ConstZero class_TokenBuffer ++ fields_of_class ConstZero class_lossy_Decoder
+  ++ fields_of_class ConstZero class_lossless_Encoder ++ fields_of_class ConstZero class_lossless_Decoder
+  ++ fields_of_class ConstZero class_parallelState ++ fields_of_class ConstZero class_RowWorker
+  ++ fields_of_class ConstZero class_importUVWorker ++ fields_of_class ConstZero class_BoolWriter
+  ++ fields_of_class ConstZero class_argbBuf = [].
+Proof. vm_compute. repeat split; reflexivity. Qed.
+
 Lemma dimension_gate_tokens :
   In "tokens.Reset" F.lossy_VP8Encoder_NewEncoder_calls /\ In "tokens.Reset" F.lossy_VP8Encoder_NewEncoderFromYUV_calls /\
   In "pages" assigned_TokenBuffer /\ In "curPage" assigned_TokenBuffer.
@@ -250,14 +273,19 @@ Section Instances.
   Variables (init : Args -> string -> Val) (nilv : Val).
   Variables (gate : Args -> (string -> Val) -> bool) (run : Args -> (string -> Val) -> Out * (string -> Val)).
 
+  Variable zerov : Val.
+
   Definition hist_indep (fields : list string) (cls : list (string * fclass)) (assigned released : list string) : Prop :=
     frame_condition Args Out Val Shape shape fields cls run ->
     dimension_gate_condition Args Val Shape shape fields cls assigned init gate ->
+    (forall a, czero_inv Val fields cls zerov (fresh Args Val init a)) ->
+    (forall a o, czero_inv Val fields cls zerov o -> czero_inv Val fields cls zerov (snd (run a o))) ->
     forall h a b b0 p0,
+      pool_inv Val fields cls zerov p0 ->
       out_of_last Out Val (run_history Args Out Val assigned released init nilv gate run p0 (h ++ [(a, b)]))
       = out_of_last Out Val (run_history Args Out Val assigned released init nilv gate run [] [(a, b0)]).
 
-  Ltac inst L := intros Hf Hd; exact (history_independent Args Out Val Shape shape _ _ _ _ init nilv gate run L Hf Hd).
+  Ltac inst L := intros Hf Hd Hi Hr; exact (history_independent Args Out Val Shape shape _ _ _ _ init nilv zerov gate run L Hf Hd Hi Hr).
 
   Lemma history_independent_VP8Encoder :
     hist_indep F.lossy_VP8Encoder_fields class_VP8Encoder assigned_VP8Encoder released_VP8Encoder.
